@@ -38,6 +38,10 @@ from .common_node import wake_fail
 
 def run(ctx: Ctx):
     model = ctx.model
+    from .common_node import names_resolve
+    names_resolve(ctx, "C18-RN")
+    from .recvmsg import received_messages_reach_dispatch
+    received_messages_reach_dispatch(ctx, "C18-R9d", answers=True, requests=False)
     nc = model.cls("node.node", "Node")
     peer_mod = model.module("node.peer")
     P = lambda n: model.fold_name(peer_mod, n)
